@@ -12,5 +12,6 @@ import LasModel.Audit.C01
 import LasModel.Audit.C03
 import LasModel.Audit.C04
 import LasModel.Audit.C05
+import LasModel.Audit.C06
 import LasModel.Model.Date
 import LasModel.Driver.Main
